@@ -49,7 +49,8 @@ SORT_OF = {'str': 'String', 'int': 'Int', 'bool': 'Bool'}
 
 
 class Engine(ValueOps, ExprOps, CallOps, StmtOps):
-    def __init__(self, repo, schema, contracts, spec_funcs=None):
+    def __init__(self, repo, schema, contracts, spec_funcs=None, invariants=None):
+        self.invariants = invariants or {}
         self.repo = repo
         self.schema = schema
         self.contracts = contracts
@@ -79,6 +80,7 @@ class Engine(ValueOps, ExprOps, CallOps, StmtOps):
         self.spec_depth = {}
         self.hole_log = []
         self.guards = []
+        self.wf_used = set()
 
     # ------------------------------------------------------------ names (ghost variables)
     def ev_Name(self, node):
@@ -107,6 +109,8 @@ class Engine(ValueOps, ExprOps, CallOps, StmtOps):
         self.st.mute = True
         try:
             return self.ev(node)
+        except PathInfeasible:
+            raise Unsupported('ill-typed specification expression: %s' % text)
         finally:
             self.spec_mode = saved_mode
             self.st.mute = saved_mute
@@ -155,12 +159,15 @@ class Engine(ValueOps, ExprOps, CallOps, StmtOps):
         bvs = []
         saved = dict(st.env)
         for nmv in names:
-            b = st.decls.const(nmv, 'Int')
-            del st.decls.consts[b]
+            b = st.decls.bound_var(nmv)
             bvs.append(b)
             st.env[nmv] = self.mk_int(b)
         mark = len(st.pc)
-        c, _, _ = self.cond(lam.body)
+        st.decls.bound.extend(bvs)
+        try:
+            c, _, _ = self.cond(lam.body)
+        finally:
+            del st.decls.bound[len(st.decls.bound) - len(bvs):]
         st.env = saved
         side = [t for t, k in st.pc[mark:] if k in ('wf', 'def', 'lib')]
         cside = [t for t, k in st.pc[mark:] if k not in ('wf', 'def', 'lib')]
@@ -206,6 +213,13 @@ class Engine(ValueOps, ExprOps, CallOps, StmtOps):
             if name == 'seq' and len(args) == 1:
                 v = args[0]
                 return SV('tuple', seq=self.seq_of(v), elems=v.elems, ty=frozenset([('tuple', None)]))
+            if name == 'is_fresh' and len(args) == 1 and self.old_state is not None:
+                v = args[0]
+                if v.kind == 'val':
+                    v = self.narrow(v)
+                if v.kind in ('ref', 'list', 'dict') and v.term is not None:
+                    return self.mk_bool(mk_le(self.old_state.alloc, v.term))
+                return self.mk_bool(TRUE)
             if name == 'same' and len(args) == 2:
                 return self.mk_bool(mk_eq(self.box(args[0]), self.box(args[1])))
             if name == 'int_str' and len(args) == 1:
@@ -231,7 +245,7 @@ class Engine(ValueOps, ExprOps, CallOps, StmtOps):
                 return self.spec_apply(fd, full, sf.ret)
             vers = '_'.join(str(st.heapver.get(a, 0)) for a in sf.reads)
             fname = 'sf_%s%s' % (name, ('_h' + vers) if sf.reads else '')
-            rsort = SORT_OF.get(sf.ret, 'Int' if sf.ret == 'seq' else 'Val')
+            rsort = SORT_OF.get(sf.ret, 'Int' if sf.ret.startswith('seq') else 'Val')
             st.decls.fun(fname, ['Val'] * len(params), rsort)
             app = "(%s %s)" % (fname, ' '.join(self.box(a) for a in full)) if full else fname
             res = self._spec_result(app, sf)
@@ -259,7 +273,7 @@ class Engine(ValueOps, ExprOps, CallOps, StmtOps):
             return self.spec_body(list(fd.body))
         except PathInfeasible:
             # ill-typed application: the spec function is unconstrained there
-            if ret == 'seq':
+            if ret.startswith('seq'):
                 return SV('tuple', seq=st.decls.const('undef', 'Int'), ty=frozenset([('tuple', None)]))
             return self.fresh_typed('undef', ret if ret in ('str', 'int', 'bool') else 'any')
         finally:
@@ -278,16 +292,28 @@ class Engine(ValueOps, ExprOps, CallOps, StmtOps):
                 self.assign(s.targets[0], self.ev(s.value), s)
                 continue
             if isinstance(s, ast.If):
-                c, _, _ = self.cond(s.test)
+                c, rt, rf = self.cond(s.test)
                 rest = stmts[i + 1:]
                 if c == TRUE:
+                    self.apply_refine(rt)
                     return self.spec_body(list(s.body) + rest)
                 if c == FALSE:
+                    self.apply_refine(rf)
                     return self.spec_body(list(s.orelse) + rest)
                 env0 = dict(st.env)
-                a = self.spec_body(list(s.body) + rest)
+                self.guards.append(c)
+                try:
+                    self.apply_refine(rt)
+                    a = self.spec_body(list(s.body) + rest)
+                finally:
+                    self.guards.pop()
                 st.env = dict(env0)
-                b = self.spec_body(list(s.orelse) + rest)
+                self.guards.append(mk_not(c))
+                try:
+                    self.apply_refine(rf)
+                    b = self.spec_body(list(s.orelse) + rest)
+                finally:
+                    self.guards.pop()
                 st.env = env0
                 return self.merge_ite(c, a, b)
             raise Unsupported('statement %s in a spec function' % type(s).__name__, s)
@@ -353,6 +379,11 @@ class Engine(ValueOps, ExprOps, CallOps, StmtOps):
             return self.mk_bool(app)
         if sf.ret == 'seq':
             return SV('tuple', seq=app, ty=frozenset([('tuple', None)]))
+        if sf.ret.startswith('seq:'):
+            ety = parse_ty(sf.ret[4:])
+            self.st.assume(mk_le('0', "(len %s)" % app), 'wf')
+            self.assume_elem_types(app, ety)
+            return SV('tuple', seq=app, ty=frozenset([('list', ety)]))
         return self.unbox(app, parse_ty(sf.ret))
 
     def _spec_eq(self, res, body, sf):
@@ -362,7 +393,7 @@ class Engine(ValueOps, ExprOps, CallOps, StmtOps):
             if body.kind != sf.ret:
                 raise Unsupported('spec function %s returns %s, declared %s' % (sf.name, body.kind, sf.ret))
             return mk_eq(res.term, body.term)
-        if sf.ret == 'seq':
+        if sf.ret.startswith('seq'):
             return mk_eq(res.seq, self.seq_of(body))
         return mk_eq(self.box(res), self.box(body))
 
@@ -484,6 +515,10 @@ class Engine(ValueOps, ExprOps, CallOps, StmtOps):
         saved_old = self.old_state
         try:
             for r in con.requires:
+                if self.is_class_invariant(selfsv, r):
+                    # a class invariant of (every possible class of) the receiver: assumed well-formedness
+                    self.wf_used.add('%s: %s' % (fi.cls, r))
+                    continue
                 st.oblige(self.spec_eval_bool(r), 'precondition of %s: %s' % (con.key, r), ln, kind='requires')
             self.havoc_modifies(con.modifies, env)
             self.old_state = pre
@@ -504,6 +539,17 @@ class Engine(ValueOps, ExprOps, CallOps, StmtOps):
             self.old_state = saved_old
             st.env = saved_env
         return res
+
+    def is_class_invariant(self, selfsv, text):
+        if selfsv is None or selfsv.kind != 'ref' or not self.invariants:
+            return False
+        for c in self.ref_classes(selfsv.ty):
+            mine = []
+            for m in self.repo.mro(c):
+                mine += self.invariants.get(m, [])
+            if text not in mine:
+                return False
+        return True
 
     def fresh_typed(self, name, ty):
         st = self.st
@@ -531,6 +577,7 @@ class Engine(ValueOps, ExprOps, CallOps, StmtOps):
         st = State(decls)
         self.st = st
         st.alloc = decls.const('alloc', 'Int')
+        self.alloc0 = st.alloc
         self.seqheap()
         self.dict_heaps()
         params = fi.params
@@ -595,6 +642,7 @@ class Engine(ValueOps, ExprOps, CallOps, StmtOps):
             p.inlined = set(self.inlined)
             p.called = set(self.called_contracts)
             p.holes = list(self.hole_log)
+            p.wf_used = set(self.wf_used)
             res.paths.append(p)
         res.gen_time = time.time() - t0
         return res
